@@ -256,7 +256,7 @@ class AWQPackedTensor(torch.Tensor):
         inner_tensors = ["_data"]
         # Since meta can be used for serialization, use only AST compatible strings
         meta = {
-            "packing": str(self._packing),
+            "packing": self._packing.name,
             "reorder": str(self._reorder),
             "size": str(list(self.size())),
             "stride": str(self.stride()),
@@ -269,7 +269,7 @@ class AWQPackedTensor(torch.Tensor):
         assert len(meta) == 4
         data = inner_tensors["_data"]
         # Meta should contain only AST compatible strings
-        packing = ast.literal_eval(meta["packing"])
+        packing = AWQPacking[meta["packing"]]
         reorder = ast.literal_eval(meta["reorder"])
         size = ast.literal_eval(meta["size"])
         stride = ast.literal_eval(meta["stride"])
